@@ -42,6 +42,8 @@ def decomp_lit(d):
     k = d["kind"]
     if k == "cp":
         return f"(DCp {C.opt(d['w'], arr_lit)} {arrs_lit(d['fs'])} {C.opt(d.get('mask'), arr_lit)})"
+    if k == "tucker" and d.get("modes") is not None:
+        return f"(DTuckerModes {arr_lit(d['core'])} {arrs_lit(d['fs'])} {C.nat_list(d['modes'])})"
     if k == "tucker":
         return f"(DTucker {arr_lit(d['core'])} {arrs_lit(d['fs'])} {C.opt(d.get('skip'), C.nat)} {C.boolc(d.get('tr', False))})"
     if k in ("tt", "tr", "ttm"):
@@ -134,6 +136,11 @@ def dense_spec(d):
         return out
     if k == "tucker":
         core = I64(d["core"]); fs = [I64(f) for f in d["fs"]]
+        if d.get("modes") is not None:   # tucker_to_tensor(..., modes=ms): factor j along mode ms[j]
+            res = core
+            for f, m in zip(fs, d["modes"]):
+                res = np.moveaxis(np.tensordot(f, res, axes=([1], [m])), 0, m)
+            return res
         if d.get("tr"):
             fs = [f.T for f in fs]
         res = core
@@ -335,6 +342,8 @@ def call_view(d, x, v, kind, use_method):
         if n == "norm": return lambda: cp.cp_norm(x)
     if k == "tucker":
         kw = dict(skip_factor=d.get("skip"), transpose_factors=bool(d.get("tr")))
+        if d.get("modes") is not None:
+            kw["modes"] = list(d["modes"])
         if n == "tensor": return lambda: tk.tucker_to_tensor(x, **kw)
         if n == "unfolded": return lambda: tk.tucker_to_unfolded(x, v[1], **kw)
         if n == "vec": return lambda: tk.tucker_to_vec(x, **kw)
@@ -620,6 +629,10 @@ def gen_valid(tier, rng):
             core = rint(rng, rk)
             fs = [rint(rng, (n, r)) for n, r in zip(s, rk)]
             yield dict(kind="tucker", core=core, fs=fs, negmodes=(rep == 0))
+            if rep == 0 and len(s) >= 2:
+                # tucker_to_tensor(..., modes=ms): a random non-empty selection of pairwise distinct modes in random order
+                ms = rng.sample(range(len(s)), rng.randint(1, len(s)))
+                yield dict(kind="tucker", core=core, fs=[rint(rng, (rng.choice([1, 2, 3]), rk[m])) for m in ms], modes=ms, views=[("tensor",)], no_wrapper=True)
             if rep == 0:
                 yield dict(kind="tucker", core=core, fs=fs, skip=rng.randrange(len(s)))
                 yield dict(kind="tucker", core=core, fs=[f.T.copy() for f in fs], tr=True, skip=(rng.randrange(len(s)) if rng.random() < 0.4 else None))
@@ -783,6 +796,9 @@ def gen_malformed(tier, rng):
         yield dict(kind="tucker", core=rint(rng, rb), fs=fb, why="one-column factor against a core mode of size > 1")
         fbt = [f.T.copy() for f in fb]
         yield dict(kind="tucker", core=rint(rng, rb), fs=fbt, tr=True, why="one-row factor (transpose_factors) against a core mode of size > 1")
+        msb = rng.sample(range(ob), rng.randint(1, ob)); jm = rng.randrange(len(msb))
+        yield dict(kind="tucker", core=rint(rng, rb), fs=[rint(rng, (2, rb[m] + (1 if j == jm else 0))) for j, m in enumerate(msb)], modes=msb, views=[("tensor",)],
+                   no_wrapper=True, why="modes=...: a factor whose columns differ from the core size along ITS mode")
         yield dict(kind="tucker", core=rint(rng, rb), fs=[rint(rng, (n, r)) for n, r in zip(sb, rb)] + [rint(rng, (2, 2))], skip=ob,
                    why="more factors than core modes, the superfluous one skipped")
         # --- TT
@@ -880,6 +896,10 @@ def well_formed_py(d):
             return d["w"] is None or d["w"].shape == (cols[0],)
         if k == "tucker":
             fs, core = d["fs"], d["core"]
+            if d.get("modes") is not None:
+                ms = list(d["modes"])
+                return (len(ms) == len(fs) and len(set(ms)) == len(ms) and all(0 <= m < core.ndim for m in ms)
+                        and all(f.ndim == 2 and f.shape[1] == core.shape[m] for f, m in zip(fs, ms)))
             if d.get("tr"):   # transpose_factors=True: the stored matrices are the transposed factors
                 fs = [f.T if f.ndim == 2 else f for f in fs]
             return len(fs) >= 2 and len(fs) == core.ndim and all(f.ndim == 2 and f.shape[1] == core.shape[i] for i, f in enumerate(fs))
@@ -927,6 +947,8 @@ def silent_ok(d):
     (fewer factors than core modes, or a superfluous factor that is skipped) is documented behaviour of multi_mode_dot"""
     if d["kind"] == "tucker":
         core, fs, skip = d["core"], list(d["fs"]), d.get("skip")
+        if d.get("modes") is not None:
+            return False
         if d.get("tr"):
             fs = [f.T for f in fs]
         used = [(i, f) for i, f in enumerate(fs) if i != skip]
@@ -955,6 +977,8 @@ def describe(d):
         out["projection_shapes"] = [list(p.shape) for p in d["ps"]]
     if k == "tucker":
         out["core_shape"] = list(d["core"].shape); out["skip"] = d.get("skip"); out["transpose"] = bool(d.get("tr"))
+        if d.get("modes") is not None:
+            out["modes"] = list(d["modes"])
     if d.get("mask") is not None:
         out["masked"] = True
     if d.get("why"):
@@ -986,7 +1010,7 @@ def payload_arrays(d):
         p["cplx"] = [d["cplx"][0], d["cplx"][1], {"shape": list(d["cplx"][2].shape), "values": [_num(x) for x in d["cplx"][2].ravel()]}]
     if d.get("views") is not None:
         p["views"] = [list(v) for v in d["views"]]
-    for key in ("skip", "tr", "why", "onedim", "onedim_exact", "late_reject", "rational", "dtypes", "no_wrapper", "half", "negmodes"):
+    for key in ("skip", "tr", "why", "onedim", "onedim_exact", "late_reject", "rational", "dtypes", "no_wrapper", "half", "negmodes", "modes"):
         if d.get(key) is not None:
             p[key] = d[key]
     return p
@@ -1007,7 +1031,7 @@ def from_payload(p):
     for key in ("fs", "cores", "ps"):
         if p.get(key) is not None:
             d[key] = [arr(a) for a in p[key]]
-    for key in ("skip", "tr", "why", "onedim", "onedim_exact", "late_reject", "rational", "dtypes", "no_wrapper", "half", "negmodes"):
+    for key in ("skip", "tr", "why", "onedim", "onedim_exact", "late_reject", "rational", "dtypes", "no_wrapper", "half", "negmodes", "modes"):
         if p.get(key) is not None:
             d[key] = p[key]
     return d
@@ -1187,12 +1211,30 @@ def run_shards_with_retry(cases, shard):
     return failing, n_eval, still
 
 
+def zero_order_probe(chk):
+    """the 0-order branches (a Python number instead of a factor set): _validate_cp_tensor(x) = (0, 0), cp_to_tensor(x) = x, tt_to_tensor(x) = x.
+    Predicates only (the Coq model has no scalar input); what _validate_tt_tensor(x) does is recorded, not judged."""
+    from tensorly import cp_tensor as cp, tt_tensor as tt
+    obs = {}
+    for x in (2.5, 3):
+        r = {"validate_cp": C.call_impl(lambda: cp._validate_cp_tensor(x)), "cp_to_tensor": C.call_impl(lambda: cp.cp_to_tensor(x)),
+             "tt_to_tensor": C.call_impl(lambda: tt.tt_to_tensor(x)), "validate_tt": C.call_impl(lambda: tt._validate_tt_tensor(x))}
+        obs[repr(x)] = {k: (v[0], repr(v[1])[:60]) for k, v in r.items()}
+        for name, want in (("validate_cp", (0, 0)), ("cp_to_tensor", x), ("tt_to_tensor", x)):
+            st, val = r[name]
+            if st != "ok" or not (val == want):
+                chk.finding("tensorly.cp_tensor." + ("_validate_cp_tensor" if name == "validate_cp" else name) if name != "tt_to_tensor" else "tensorly.tt_tensor.tt_to_tensor",
+                            {"zero_order": x}, f"{name}({x!r}) = {val!r}, expected {want!r} (0-order branch)", "C03_zero_order_identity")
+    chk.cov["zero_order"] = obs
+
+
 def run(chk):
     rng = random.Random(chk.seed)
     chk.build_proofs()
     from harness.props import C03_ast
     chk.cov["source_tie"] = C03_ast.run_static(chk)   # corr:C03-src: chain validators regenerated from the source; einsum equation of the TT-matrix
     C.reset_backends()
+    zero_order_probe(chk)
     tier = chk.tier
     cases, meta = [], []
     stream = [(d, False) for d in corpus_cases()] + [(d, False) for d in gen_valid(tier, rng)] + [(d, False) for d in gen_dtype_variants(tier, rng)] + [(d, True) for d in gen_malformed(tier, rng)]
@@ -1252,7 +1294,7 @@ def run(chk):
                        "the to_tensor routes are modelled for 2-D (and, rank 1, 1-D) CP factors, 2-D Tucker factors, 3-D TT/TR cores, 4-D TT-matrix cores; other ndims only through the validators",
                        "mixed-dtype / complex / half-integer factor sets are compared by VALUE after exact conversion (the model has no dtype); a complex array is split into two integer cases by linearity",
                        "NumPy reshape/moveaxis/transpose behave as modelled in Base/Tensor.v (validated by C01's primitive cases)"]
-    chk.trusted += ["source tie corr:C03-src: the ast translation of five validators into program terms (harness/props/C03_ast.py) and the reading of ein_chain as the equation ttm_equation N are trusted; _validate_parafac2_tensor is tied to the model by the differential correspondence only",
+    chk.trusted += ["source tie corr:C03-src: the ast translation of the six validators into program terms (harness/props/C03_ast.py; CP and PARAFAC2: structural recognisers) and the reading of ein_chain as the equation ttm_equation N are trusted; the orthonormality test of _validate_parafac2_tensor is an oracle of its program",
                     "einsum backend: the einsum routes of CP (khatri_rao), Tucker (multi_mode_dot) and the TT-matrix are modelled separately (value of the single np.einsum call) and proved equal to the core routes on well-formed input; TT / TR / PARAFAC2 run the same code under both backends; on malformed operands the Tucker and TT-matrix einsum routes are compared against their models as well (tucker_to_tensor_einsum_b: exact contracted dimensions; ttm_to_tensor_einsum: the validator's conditions first); the einsum khatri_rao of CP is reached only after _validate_cp_tensor and is compared on accepted sets only",
                     "PARAFAC2 orthonormality threshold 1e-5 is modelled exactly (P^T P = I) which coincides on integer-valued projections"]
     _orig_load = C.load_known
